@@ -15,6 +15,10 @@ NOT_APPLICABLE = {
 
 # property -> (engine, category, technique, text, note, design_ref)
 CLAIMED = {
+    'C13': ('slices', 'other', 'abstraction of each dispatch loop to a guarded polynomial recurrence (path-sensitive symbolic execution of the loop body by the shape engine) whose partition properties are checked for every (rows, threads) pair of the bound; ownership rule over worker stores; create/join pairing; worker bounds under dispatcher-established facts',
+            'Decides the partition/ownership/join clauses: for all 10 range-slicing dispatch loops and every (rows, threads) pair up to the bound (thorough: rows 0..40 x threads 1..24, the property quantifier) the worker ranges start at 0, are contiguous, stay within the extent and end at it -- every row is processed by exactly one worker; workers write shared storage only at their own indices; condensed vectors have (n*n-n)/2 cells; threads are joined before their arguments are freed. Numeric agreement with the sequential kernels, metric axioms and bijectivity of the condensed index map are NOT decided.',
+            'Trusted: clang AST; the recurrence extraction of the shape engine; worker contracts of lsv/contracts.json; square_to_condensed_index injective on i < k (assumption).',
+            'DESIGN.md 2/E3, 3/C13'),
     'C11': ('shape', 'other', 'symbolic extent/index abstract interpretation of every dense kernel under its frozen conformability contract (rejected-shape baseline), with callee contracts instantiated as caller obligations; three-valued obligations with shape witnesses',
             'Decides the all-shapes memory/extent clause: for every shape admitted by the kernel\'s contract and own guards (including empty, single-row/column and non-square shapes) every subscript is in range and every internal call is conformable. The numeric value of the kernels, the algebraic laws, ordering by key and the coverage of the inner dimension by unrolled loop + tail are NOT decided.',
             'Trusted: clang AST; lsv/contracts.json (each precondition hand-confirmed with a reason); no aliasing between distinct parameters; LP64.',
